@@ -3,6 +3,8 @@
 (* is, Fixed = {}) and the declarative expansion on each and prints                                      *)
 (*   p = the construct program, e = ExpandDecl(p) (the hand expansion, labels renamed per scope),        *)
 (*   m = what the machine delivers, devs = named deviations that fired, indef = manual leaves it open.   *)
+(*   targets = the targets (MacroProg TargetsQuick, TargetsAll) p and e are to be rendered and assembled  *)
+(*   for.                                                                                                 *)
 (* The harness renders p and e, assembles both with the real asl and compares the code files.            *)
 EXTENDS MacroProg, Json
 CONSTANTS Family, Tier
@@ -11,7 +13,9 @@ VARIABLES job, res
 vars == <<job, res>>
 
 Q == Tier = "quick"
-J(tag, files, bins) == [tag |-> tag, files |-> files, bins |-> bins]
+\* targets = names of the targets (MacroProg TargetsQuick, TargetsAll) the program is rendered and assembled for
+JT(tag, files, bins, tgts) == [tag |-> tag, files |-> files, bins |-> bins, targets |-> tgts]
+J(tag, files, bins) == JT(tag, files, bins, {IF Family = "attr" THEN "68000" ELSE "z80"})
 NoBins == <<>>
 
 ParamNs == IF Q THEN {0, 2, 9, 13, 17, 20} ELSE 0..20
@@ -57,6 +61,15 @@ Jobs ==
     [] Family = "bin" ->
          {J(<<"bin", sz, o, ln>>, BinProg(sz, o, ln), BinFile(sz)) :
             sz \in {0, 1, 5, 255, 256, 257, 600}, o \in {-1, 0, 1, 4, 255, 256}, ln \in {-1, 0, 1, 2, 256, 300}}
+    [] Family = "binctx" ->      \* BINCLUDE in a context, followed by byte / word / long data / an instruction, on every class of target
+         LET Ts == IF Q THEN TargetsQuick ELSE TargetsAll
+             Wins == IF Q THEN {<<6, -1, -1>>, <<6, 1, 3>>, <<6, 0, 0>>, <<600, 1, 300>>}
+                     ELSE {<<6, -1, -1>>, <<6, 0, 2>>, <<6, 1, 3>>, <<6, 2, -1>>, <<6, 0, 0>>, <<6, 4, 1>>, <<600, 1, 300>>, <<600, 255, 257>>}
+             Combos == IF Q THEN {<<"N", "W">>, <<"B", "L">>, <<"W", "I">>, <<"L", "W">>, <<"I", "B">>}
+                       ELSE {"N", "B", "W", "L", "I"} \X {"B", "W", "L", "I"}
+             For(c) == {t.name : t \in {u \in Ts : BinCtxSizes(c[1], c[2]) \subseteq u.sizes}}
+         IN {JT(<<"binctx", ctx, w[1], w[2], w[3], c[1], c[2]>>, BinCtxProg(ctx, w[2], w[3], c[1], c[2]), BinFile(w[1]), For(c)) :
+               ctx \in BinCtxs, w \in Wins, c \in Combos}
     [] Family = "count" ->
          {J(<<"count", kd, n>>, CountProg(kd, n, 0), NoBins) : kd \in {"REPT", "IRP", "IRPC", "WHILE"}, n \in Counts}
          \cup {J(<<"count", "REPTNEG", n>>, CountProg("REPTNEG", n, 0), NoBins) : n \in {1, 3}}
@@ -73,7 +86,7 @@ Jobs ==
 Compute(j) ==
   LET M == RunMachine(j.files, j.bins, "a.asm")
       D == ExpandDecl(j.files, j.bins, "a.asm")
-  IN [tag |-> j.tag, p |-> j.files, bins |-> j.bins, e |-> D.flat, indef |-> D.indef, m |-> MachineFlat(M),
+  IN [tag |-> j.tag, targets |-> j.targets, p |-> j.files, bins |-> j.bins, e |-> D.flat, indef |-> D.indef, m |-> MachineFlat(M),
       devs |-> M.devs, errs |-> M.errs, same |-> (MachineFlat(M) = D.flat)]
 
 \* the runs are made in the only step of a behaviour (so that all TLC workers share the jobs)
@@ -81,5 +94,7 @@ Init == job \in Jobs /\ res = <<>>
 Next == res = <<>> /\ res' = Compute(job) /\ UNCHANGED job
 Dump == res # <<>> => PrintT(<<"OUT", ToJson(res)>>)
 \* the specification's own claim on every generated program (same as MacroProc_MC, on bigger programs)
+\* the quick target set has a member of every class of target the full set has
+ASSUME TargetsCovered
 Agrees == res # <<>> => ((~res.indef /\ res.devs = {}) => (res.same /\ res.errs = 0))
 =============================================================================
